@@ -66,6 +66,8 @@ pub struct LockRequest {
     pub class: LockClass,
     pub mode: LockMode,
     pub kind: LockKind,
+    /// `read_recursive` and friends: a read that may overtake a waiting writer if the lock is already read-locked
+    pub recursive: bool,
     pub site: &'static Location<'static>,
 }
 
@@ -153,11 +155,23 @@ impl<T> RwLock<T> {
 
     #[inline]
     fn decide(&self, mode: LockMode, kind: LockKind, site: &'static Location<'static>) -> (Decision, LockRequest) {
+        self.decide_rec(mode, kind, false, site)
+    }
+
+    #[inline]
+    fn decide_rec(
+        &self,
+        mode: LockMode,
+        kind: LockKind,
+        recursive: bool,
+        site: &'static Location<'static>,
+    ) -> (Decision, LockRequest) {
         let req = LockRequest {
             id: self.id,
             class: self.class,
             mode,
             kind,
+            recursive,
             site,
         };
         match hooks() {
@@ -257,6 +271,70 @@ impl<T> RwLock<T> {
             Decision::Failed => None,
             Decision::PassThrough => self.inner.try_read_for(timeout).map(|g| self.plain_read(g)),
         }
+    }
+
+    // ---- further parts of the parking_lot interface, so that edits of the crate keep compiling with the feature on ----
+
+    fn granted_read_recursive(&self, req: &LockRequest) -> RwLockReadGuard<'_, T> {
+        match self.inner.try_read_recursive() {
+            Some(guard) => RwLockReadGuard {
+                inner: Some(guard),
+                id: self.id,
+                class: self.class,
+                managed: true,
+            },
+            None => hooks().unwrap().mismatch(req),
+        }
+    }
+
+    #[track_caller]
+    pub fn read_recursive(&self) -> RwLockReadGuard<'_, T> {
+        let (decision, req) = self.decide_rec(LockMode::Read, LockKind::Blocking, true, Location::caller());
+        match decision {
+            Decision::Granted => self.granted_read_recursive(&req),
+            Decision::Failed => hooks().unwrap().mismatch(&req),
+            Decision::PassThrough => self.plain_read(self.inner.read_recursive()),
+        }
+    }
+
+    #[track_caller]
+    pub fn try_read_recursive(&self) -> Option<RwLockReadGuard<'_, T>> {
+        let (decision, req) = self.decide_rec(LockMode::Read, LockKind::Try, true, Location::caller());
+        match decision {
+            Decision::Granted => Some(self.granted_read_recursive(&req)),
+            Decision::Failed => None,
+            Decision::PassThrough => self.inner.try_read_recursive().map(|g| self.plain_read(g)),
+        }
+    }
+
+    #[track_caller]
+    pub fn try_read_recursive_for(&self, timeout: Duration) -> Option<RwLockReadGuard<'_, T>> {
+        let (decision, req) = self.decide_rec(LockMode::Read, LockKind::Timed(timeout), true, Location::caller());
+        match decision {
+            Decision::Granted => Some(self.granted_read_recursive(&req)),
+            Decision::Failed => None,
+            Decision::PassThrough => self.inner.try_read_recursive_for(timeout).map(|g| self.plain_read(g)),
+        }
+    }
+
+    pub fn is_locked(&self) -> bool {
+        self.inner.is_locked()
+    }
+
+    pub fn is_locked_exclusive(&self) -> bool {
+        self.inner.is_locked_exclusive()
+    }
+
+    pub fn get_mut(&mut self) -> &mut T {
+        self.inner.get_mut()
+    }
+
+    pub fn into_inner(self) -> T {
+        self.inner.into_inner()
+    }
+
+    pub fn data_ptr(&self) -> *mut T {
+        self.inner.data_ptr()
     }
 
     #[track_caller]
